@@ -396,7 +396,7 @@ class EASStage(Stage):
         self.ev += [(math.radians(20.0), 2.0, 1.0, 0.45, 0.3), (math.radians(20.0), 2.0, 10.0, 0.45, 0.3)]  # (a site with no cloud above the track in either month)
         # two events on DIFFERENT tracks with the same number of valid steps (1350) but different numbers of steps below
         # 30 km (618 and 534): a per-shape block that one shower fills and the next only partly overwrites shows here
-        self.ev += [(0.4853, 0.771, 1.0, 0.45, 0.3), (0.4277, 7.261, 1.0, 0.45, 0.3)]
+        self.ev += [(0.48531630344983234, 0.7708277896769911, 1.0, 0.45, 0.3), (0.42770094774341766, 7.260866363896275, 1.0, 0.45, 0.3)]
         self.k = len(self.ev)
 
     def make(self):
@@ -857,9 +857,38 @@ def judge_buffer(N, splits):
     return out
 
 
+def _rev_job(a):
+    """in a forked child that has not run any stage yet: every event alone on a fresh object, LAST event first"""
+    tier, i = a
+    st = stages(tier)[i]
+    return [st.rows(st.make(), [j])[0][0] for j in reversed(range(st.k))][::-1]
+
+
+def _fwd_job(a):
+    tier, i = a
+    st = stages(tier)[i]
+    return [st.rows(st.make(), [j])[0][0] for j in range(st.k)]
+
+
 def run(ctx):
     tier = ctx.tier
     tot_states = tot_ctx = 0
+    # first, before this process has evaluated anything: each stage's events alone on fresh objects in REVERSE order, each
+    # stage in a forked child of its own; compared below with the same events in index order in this process. A
+    # module-level memo (an lru_cache of a work array, say) makes an event's result depend on which event the PROCESS saw
+    # first - something no context on fresh objects inside one process can show, since they all share that first time
+    from .. import par
+
+    nst = 13
+    rev = par.pmap_isolated(_rev_job, [(tier, i) for i in range(nst)])
+    sts = stages(tier)
+    assert len(sts) == nst, "update nst in c11.run"
+    for i, st in enumerate(sts):
+        fwd = [st.rows(st.make(), [j])[0][0] for j in range(st.k)]
+        ctx.tick(2 * st.k, (st.name, "process_order"))
+        bad = [j for j in range(st.k) if fwd[j] != rev[i][j]]
+        if bad:
+            ctx.violation("event_result_independent_of_context", {"kind": "process_order", "stage": st.name, "index": i, "tier": tier}, "the same bytes whichever event this process evaluated first", f"events {bad} differ between index order and reverse order (fresh processes)")
     for st in stages(tier):
         v, n, ns = judge_stage(st, tier)
         tot_ctx += n
@@ -918,6 +947,16 @@ def replay(case):
             if s_.name == case["stage"]:
                 out += [(c, "same bytes as on a fresh object", what) for c, kind, seq, what in judge_after_error(s_)[0]]
         return out
+    if case["kind"] == "process_order":
+        from .. import par
+
+        tier = case.get("tier", "quick")
+        i = case["index"]
+        # (both orders in forked children, so that the replaying process's own history does not matter)
+        rev = par.pmap_isolated(_rev_job, [(tier, i)])[0]
+        fwd = par.pmap_isolated(_fwd_job, [(tier, i)])[0]
+        bad = [j for j in range(len(fwd)) if fwd[j] != rev[j]]
+        return [("event_result_independent_of_context", "the same bytes whichever event this process evaluated first", f"events {bad} differ")] if bad else []
     if case["kind"] == "private_tables":
         out = []
         for s_ in stages(case.get("tier", "quick")):
